@@ -367,6 +367,7 @@ type checker struct {
 	evals     int
 	reruns    int
 	retries   int
+	failedConfirms int
 	peerTimeout int
 	classes   *core.Counter
 	outcomes  *core.Counter
@@ -500,8 +501,11 @@ func (ck *checker) handle(o *outcome) {
 		ck.run.Report(c.sig, sc, c.detail) // same class again: counted, not re-run
 		return
 	}
-	if n >= 2 {
-		return // two different cases of this class already failed to reproduce
+	ck.mu.Lock()
+	budget := ck.failedConfirms < 40
+	ck.mu.Unlock()
+	if n >= 3 || !budget {
+		return // three different cases of this class (or 40 candidates overall) already failed to reproduce
 	}
 	if ck.confirm(sc, c) {
 		ck.mu.Lock()
@@ -512,6 +516,9 @@ func (ck *checker) handle(o *outcome) {
 		ck.run.Report(c.sig, sc, c.detail+" [reproduced 5/5]")
 	} else {
 		ck.outcomes.Add("inconclusive:not-reproducible")
+		ck.mu.Lock()
+		ck.failedConfirms++
+		ck.mu.Unlock()
 	}
 }
 
@@ -658,7 +665,7 @@ func main() {
 		"scenarios_planned":   total,
 		"scenarios_completed": completed,
 		"distinct_nontrivial": ck.classes.Len(),
-		"rule": "scenario = (tamper kind [" + fmt.Sprint(len(allKinds())) + " kinds], tampered height, the interval of heights the pool initially requests from the malicious peer [only the tampered heights | from height 1 up to them | from them to the end | all], arrival order of the responses for heights 1-3 [all 6 permutations; responses are held until every height has been requested], malicious peer afterwards honest | silent, 2 | 3 serving peers); each runs the real BlockchainReactor/BlockPool/poolRoutine of one syncing node over real p2p switches in its own subprocess; distinct_nontrivial counts distinct (kind, outcome, final store height, re-request seen, malicious peer disconnected, honest peer dropped, tampered responses delivered) classes",
+		"rule": "scenario = (tamper kind [" + fmt.Sprint(len(allKinds())) + " kinds: transactions added/removed/changed with and without re-committing header, every header field, Extra, nil Data/Header/block, block of a neighbouring height served, LastCommit vote removed/duplicated/re-signed by a non-validator/of another round/for nil/exactly-2/3 power/all nil/of another height/empty/nil/BlockID field, internally valid forged block + forged commit signed by non-validators / exactly 2/3 / 2/3 plus genuine rest / a +2/3 majority of the neighbouring height's validator set / the pre-change majority, over-claimed status, large bad block followed by the peer hanging up] x tampered height (every applicable one of 1..6) x interval of heights the pool is made to request from the malicious peer [only the tampered heights | from 1 up to them | from them to the end | all] x arrival order of the responses for heights 1-3 [all 6 permutations; every response is held until every height has been requested] x malicious peer afterwards honest | silent x 2 | 3 serving peers); each scenario runs the real BlockchainReactor/BlockPool/poolRoutine of one syncing node over real p2p switches (net.Pipe, secret connection, MConnection) in its own subprocess; distinct_nontrivial counts distinct (kind, outcome, final store height, re-request seen, malicious peer disconnected, honest peer dropped, tampered responses delivered) classes",
 		"tamper_kinds":          allKinds(),
 		"outcomes":              ck.outcomes.Map(),
 		"outcome_classes":       ck.classes.Map(),
@@ -674,10 +681,11 @@ func main() {
 		"calibration_release_ms": rel,
 		"bounds":                map[string]int{"chain_length": chainLen, "heights_synced": chainLen - 1, "serving_peers_max": 3},
 	}, []string{
-		"signatures of validators cannot be forged by non-validators; fewer than 1/3... more precisely: no set of validators holding more than 2/3 of the power of a height signs two different blocks for it",
-		"the syncing node is assembled by the harness exactly as angine.assembleStateMachine does for pbft (the two closures are copied verbatim); the application behind the hook events and the IBlockExecutable are the harness's toy implementations, the validator-set change is made in EndBlock by ValidatorSet.Update/Add as plugin.AdminOp does",
-		"the source chain is produced by the harness with the real types.MakeBlock / VoteSet.MakeCommit / ConsensusState.ValidateBlock / BlockStore.SaveBlock / State.Copy().ApplyBlock sequence of pbft.finalizeCommit, not by running the consensus rounds",
-		"real goroutines and timers: a stall is a violation only when the node applies no block for 30 s (three status-refresh periods, the longest timer of the reactor) with an honest full peer connected, reproduced in 5 of 5 re-runs; every other deadline expiry is inconclusive",
-		"the pool's choice among eligible peers (map iteration) and the timing of its requester goroutines are not enumerated, only which peers are eligible when, the response order and the peers' later behaviour",
+		"a non-validator cannot produce a validator's signature, and no set of validators holding more than 2/3 of the power of a height signs two different blocks for that height",
+		"the syncing node is assembled by the harness exactly as angine.assembleStateMachine does for pbft: the verifier and executer closures are copied verbatim (a mutation of those two closures inside angine.go is therefore not reached; the mutation demos a2/a3 were applied to the copy); the application behind the hook events and the IBlockExecutable are the harness's toy implementations; the validator-set change is made in EndBlock by ValidatorSet.Update/Add as plugin.AdminOp.updateValidators does",
+		"the source chain is produced by the harness with the call sequence of pbft createProposalBlock/finalizeCommit (types.MakeBlock, VoteSet.AddVote/MakeCommit over real signatures, ConsensusState.ValidateBlock, BlockStore.SaveBlock, State.Copy().ApplyBlock, Save), not by running consensus rounds; block times are fixed so that every worker rebuilds the identical chain (digest compared)",
+		"honest peers report their true height (which may grow while the node syncs), answer every request at once with the genuine block, and redial when the node drops them; the pool's peer timeout is lowered from 15 s to 3 s (scaled up after a calibration run on a slow machine) and the connection rate limit raised accordingly; no peer ever reports a height below 2 while responses are held (a pool at height 1 whose peers all report 1 is 'caught up')",
+		"real goroutines and timers: a stall is a violation only when the node applies no block for 30 s plus four peer timeouts (three status-refresh periods, the reactor's longest timer) while an honest peer with the whole chain stays available, reproduced in 5 of 5 re-runs; every violation candidate is re-run 5 times and reported only if all 5 show the same class; executions the harness could not set up (a peer timed out while its responses were held) are repeated, then counted as inconclusive",
+		"the pool's choice among eligible peers (map iteration) and the timing of its requester goroutines are not enumerated: only which peers are eligible when, the order of the first responses and the peers' later behaviour are",
 	})
 }
